@@ -361,25 +361,24 @@ theorem fireBindTx_same (s : St) (p : Nat) (x : Txn) (e : Nat) (he : s.allocExp 
     leaves the allocation live and its handler on schedule -/
 theorem fire_inv (s : St) (t : Nat) (r : Root) (hc : Compatible s.cfg) (hp : PatsOK s.cfg) (hi : AllocInv s)
     (hm : (t, r) ∈ roots s) (hle : ∀ x ∈ roots s, t ≤ x.1) :
-    AllocInv (fire { s with now := t } t r).1 ∧ (fire { s with now := t } t r).1.cfg = s.cfg := by
+    AllocInv (fire { s with now := max s.now t } t r).1 ∧ (fire { s with now := max s.now t } t r).1.cfg = s.cfg := by
   obtain ⟨e, he, m, hmem, hlt⟩ := alloc_root_before_expiry hi
   have hte : t < e := Nat.lt_of_le_of_lt (hle m hmem) hlt
-  have hi' : AllocInv { s with now := t } := by
-    obtain ⟨i1, i2, e', he', _, h⟩ := hi
+  have hi' : AllocInv { s with now := max s.now t } := by
+    obtain ⟨i1, i2, e', he', hnow, h⟩ := hi
     rw [he] at he'; cases he'
-    exact ⟨i1, i2, e, he, hte, h⟩
-  have hroots : roots { s with now := t } = roots s := rfl
+    exact ⟨i1, i2, e, he, by show max s.now t < e; omega, h⟩
   rcases roots_inv s t r hm with ⟨hr, hw⟩ | ⟨hr, x, hx, hd⟩ | ⟨hr, hw⟩ | ⟨hr, x, hx, hd⟩ | ⟨hr, hw⟩ | ⟨p, x, hr, hx, hd⟩
   · subst hr
-    exact ⟨fireAlloc_inv { s with now := t } t hp hi' hw, rfl⟩
+    exact ⟨fireAlloc_inv { s with now := max s.now t } t hp hi' hw, rfl⟩
   · subst hr
-    have : fire { s with now := t } t .allocTx = fireAllocTx { s with now := t } x := by simp [fire, hx]
+    have : fire { s with now := max s.now t } t .allocTx = fireAllocTx { s with now := max s.now t } x := by simp [fire, hx]
     rw [this]
-    refine ⟨fireAllocTx_inv { s with now := t } x hc hp hi' hx, ?_⟩
+    refine ⟨fireAllocTx_inv { s with now := max s.now t } x hc hp hi' hx, ?_⟩
     -- cfg is never written
     unfold fireAllocTx
-    obtain ⟨f1, _⟩ := transmit_same_but_exp { s with now := t, allocTx := none } (.rf s.cfg.life) x
-    generalize transmit { s with now := t, allocTx := none } (.rf s.cfg.life) x = T at f1
+    obtain ⟨f1, _⟩ := transmit_same_but_exp { s with now := max s.now t, allocTx := none } (.rf s.cfg.life) x
+    generalize transmit { s with now := max s.now t, allocTx := none } (.rf s.cfg.life) x = T at f1
     obtain ⟨s1, outs, r⟩ := T
     simp only at f1 ⊢
     match r with
@@ -393,20 +392,20 @@ theorem fire_inv (s : St) (t : Nat) (r : Root) (hc : Compatible s.cfg) (hp : Pat
     · exact ⟨allocInv_same ⟨rfl, rfl, rfl, rfl, rfl, rfl, rfl⟩ hi', rfl⟩
     · exact ⟨allocInv_same ⟨rfl, rfl, rfl, rfl, rfl, rfl, rfl⟩ hi', rfl⟩
   · subst hr
-    have : fire { s with now := t } t .permTx = firePermTx { s with now := t } x := by simp [fire, hx]
+    have : fire { s with now := max s.now t } t .permTx = firePermTx { s with now := max s.now t } x := by simp [fire, hx]
     rw [this]
-    have hs := firePermTx_same { s with now := t } x e he (by rw [hd]; exact hte)
+    have hs := firePermTx_same { s with now := max s.now t } x e he (by rw [hd]; exact hte)
     exact ⟨allocInv_same hs hi', hs.1⟩
   · subst hr
     simp only [fire, forPeers]
-    have hs := forPeers_same t (List.range s.cfg.peers) { s with now := t, bindWake := some (t + s.cfg.bindP) }
+    have hs := forPeers_same t (List.range s.cfg.peers) { s with now := max s.now t, bindWake := some (t + s.cfg.bindP) }
     exact ⟨allocInv_same (Same.trans ⟨rfl, rfl, rfl, rfl, rfl, rfl, rfl⟩ hs) hi', hs.1⟩
   · subst hr
-    have : fire { s with now := t } t (.bindTx p) = fireBindTx { s with now := t } p x := by
-      show (match s.bindTx.getD p none with | some x => fireBindTx { s with now := t } p x | none => _) = _
+    have : fire { s with now := max s.now t } t (.bindTx p) = fireBindTx { s with now := max s.now t } p x := by
+      show (match s.bindTx.getD p none with | some x => fireBindTx { s with now := max s.now t } p x | none => _) = _
       rw [hx]
     rw [this]
-    have hs := fireBindTx_same { s with now := t } p x e he (by rw [hd]; exact hte)
+    have hs := fireBindTx_same { s with now := max s.now t } p x e he (by rw [hd]; exact hte)
     exact ⟨allocInv_same hs hi', hs.1⟩
 
 /-- any amount of time -/
